@@ -167,6 +167,16 @@ class IdxArr:
         return f"<idx {s.name}:{s.size}>"
 
 
+class IdxElem:
+    """one entry idx[k] of a generic index list (a traced integer): only meaningful as the start of a dynamic slice"""
+
+    def __init__(s, idx, k):
+        s.idx, s.k = idx, k
+
+    def __repr__(s):
+        return f"<{s.idx.name}[{s.k}]>"
+
+
 class NTuple(tuple):
     """instance of a typing.NamedTuple subclass of the analysed program: a tuple whose entries are also attributes"""
     _fields = ()
